@@ -157,7 +157,27 @@ fn string_of(node: &Value) -> String {
 
 /// flex factor as given (quarters); None when absent
 fn flex_of(kid: &Value) -> Option<f64> {
+    // "flexf": an arbitrary double (the case is then judged by the predicate alone)
+    if let Some(f) = kid["flexf"].as_f64() {
+        return Some(f);
+    }
     kid["flex"].as_i64().map(|k| k as f64 / 4.0)
+}
+
+fn has_flex(v: &Value) -> bool {
+    match v {
+        Value::Object(m) => m.iter().any(|(k, x)| (k == "flex" && x.as_i64().map(|q| q > 0).unwrap_or(false)) || has_flex(x)),
+        Value::Array(a) => a.iter().any(has_flex),
+        _ => false,
+    }
+}
+
+fn has_inexact(v: &Value) -> bool {
+    match v {
+        Value::Object(m) => m.iter().any(|(k, x)| (k == "flexf" && x.is_number()) || has_inexact(x)),
+        Value::Array(a) => a.iter().any(has_inexact),
+        _ => false,
+    }
 }
 
 struct Env {
@@ -221,11 +241,15 @@ fn build(node: &Value, env: &Arc<Env>) -> BView {
             let c = color_from(node["color"].as_u64().unwrap_or(255));
             Box::new(Frame::new(build(&node["v"], env), c, c, 0.1, 0.2))
         }
-        "scroll" => Box::new(ScrollBar::new(
-            axis_from(&node["dir"]),
-            face_from(&node["face"]),
-            ScrollBarPosition { offset: node["off"].as_u64().unwrap_or(0) as f64 / 8.0, visible: node["vis"].as_u64().unwrap_or(0) as f64 / 8.0 },
-        )),
+        "scroll" => {
+            let (off, vis, den) = (node["off"].as_u64().unwrap_or(0), node["vis"].as_u64().unwrap_or(0), node["den"].as_u64().unwrap_or(8));
+            let pos = if den == 0 {
+                ScrollBarPosition::from_counts(0, off as usize, vis as usize)
+            } else {
+                ScrollBarPosition { offset: off as f64 / den as f64, visible: vis as f64 / den as f64 }
+            };
+            Box::new(ScrollBar::new(axis_from(&node["dir"]), face_from(&node["face"]), pos))
+        }
         "tag" => Box::new(Tag::new(node["tag"].as_u64().unwrap_or(0), build(&node["v"], env))),
         "none" => Box::new(Option::<BView>::None),
         "some" => return Box::new(Some(build(&node["v"], env))),
@@ -238,7 +262,7 @@ fn build(node: &Value, env: &Arc<Env>) -> BView {
             let (a, b) = (node["a"].clone(), node["b"].clone());
             let env2 = env.clone();
             Box::new(Dynamic::new(move |_ctx: &ViewContext, ct: BoxConstraint| {
-                let pick = if ct.max().width > k * ct.max().height { &a } else { &b };
+                let pick = if (ct.max().width as u128) > (k as u128) * (ct.max().height as u128) { &a } else { &b };
                 DynView { ct, inner: build(pick, &env2) }
             }))
         }
@@ -338,8 +362,9 @@ fn node_coq(node: &Value, env: &Env) -> String {
         "str" => format!("(VStr {})", clist(vusizes(&node["s"]).iter().map(|c| c.to_string()))),
         "flex" => {
             let kids = clist(node["kids"].as_array().cloned().unwrap_or_default().iter().map(|k| {
-                let fl = match k["flex"].as_i64() {
-                    Some(q) if q > 0 => format!("(Some {}%positive)", q),
+                let fl = match (k["flexf"].as_f64(), k["flex"].as_i64()) {
+                    (Some(f), _) => if f > 0.0 { "(Some 1%positive)".to_string() } else { "None".to_string() },
+                    (None, Some(q)) if q > 0 => format!("(Some {}%positive)", q),
                     _ => "None".to_string(),
                 };
                 let face = if k["face"].is_object() { format!("(Some {})", face_coq(&face_from(&k["face"]))) } else { "None".to_string() };
@@ -366,11 +391,12 @@ fn node_coq(node: &Value, env: &Env) -> String {
         }
         "frame" => format!("(VFrame {} {})", node_coq(&node["v"], env), node["color"].as_u64().unwrap_or(255)),
         "scroll" => format!(
-            "(VScrollBar {} {} {} {} 8)",
+            "(VScrollBar {} {} {} {} {})",
             if node["dir"].as_str() == Some("v") { "Ver" } else { "Hor" },
             face_coq(&face_from(&node["face"])),
             node["off"].as_u64().unwrap_or(0),
-            node["vis"].as_u64().unwrap_or(0)
+            node["vis"].as_u64().unwrap_or(0),
+            node["den"].as_u64().unwrap_or(8)
         ),
         "tag" => format!("(VTag {} {})", node["tag"].as_u64().unwrap_or(0), node_coq(&node["v"], env)),
         "none" => "VNone".to_string(),
@@ -457,7 +483,7 @@ fn run_case(input: &Value, env: &Arc<Env>, hh: usize, ww: usize, vops: &[VOp]) -
     }
     // find_path for every position of a grid a little larger than the root
     let root = layout.view();
-    let (qh, qw) = ((root.size().height + 2).min(14), (root.size().width + 2).min(14));
+    let (qh, qw) = (root.size().height.saturating_add(2).min(14), root.size().width.saturating_add(2).min(14));
     let mut paths = vec![];
     for r in 0..qh {
         for c in 0..qw {
@@ -506,7 +532,9 @@ pub fn run(input: &Value) -> Case {
     }
     let ct = vusizes(&input["ct"]);
     let head = format!(
-        "CV {} {} {} {} {} {} {} (mkCt {} {} {} {}) {}",
+        "CV {} {} {} {} {} {} {} {} (mkCt {} {} {} {}) {}",
+        // f64 shares are exact only while remain * factor stays below 2^53
+        cbool(!has_inexact(&input["tree"]) && !(has_flex(&input["tree"]) && (ct[2] >= 1 << 40 || ct[3] >= 1 << 40))),
         cnat(hh),
         cnat(ww),
         vops_coq(&vops),
@@ -614,6 +642,7 @@ struct Gen {
     ng: usize,
     ni: usize,
     json_ok: bool,
+    inexact: bool,
 }
 
 fn gen_leaf(rng: &mut Rng, g: &mut Gen) -> Value {
@@ -632,7 +661,11 @@ fn gen_leaf(rng: &mut Rng, g: &mut Gen) -> Value {
             let n = rng.below(6) as usize;
             json!({"t": "str", "s": (0..n).map(|_| *rng.pick(&CHARS)).collect::<Vec<u32>>()})
         }
-        3 => json!({"t": "scroll", "dir": if rng.chance(1, 2) { "h" } else { "v" }, "face": gen_small_face(rng), "off": rng.below(9), "vis": rng.below(9)}),
+        3 => {
+            let (lim_o, lim_v) = (if rng.chance(1, 6) { 20 } else { 9 }, if rng.chance(1, 6) { 20 } else { 9 });
+            json!({"t": "scroll", "dir": if rng.chance(1, 2) { "h" } else { "v" }, "face": gen_small_face(rng),
+                   "off": rng.below(lim_o), "vis": rng.below(lim_v), "den": *rng.pick(&[8u64, 8, 8, 8, 3, 7, 0])})
+        }
         4 => json!({"t": "none"}),
         5 => json!({"t": "fill", "color": ((rng.below(256) << 24) | (rng.below(256) << 16) | 0x55ff) as u64}),
         6 => json!({"t": "unit"}),
@@ -665,14 +698,23 @@ fn gen_node(rng: &mut Rng, g: &mut Gen, depth: usize) -> Value {
                         4 => json!(*rng.pick(&[0i64, -4, -10])),
                         _ => json!(1 + rng.below(12)),
                     };
-                    json!({"v": gen_node(rng, g, depth - 1), "flex": flex, "face": if rng.chance(1, 4) { gen_small_face(rng) } else { Value::Null }, "align": gen_align(rng)})
+                    let mut kid = json!({"v": gen_node(rng, g, depth - 1), "flex": flex, "face": if rng.chance(1, 4) { gen_small_face(rng) } else { Value::Null }, "align": gen_align(rng)});
+                    if g.inexact && rng.chance(1, 2) {
+                        kid["flexf"] = json!(*rng.pick(&[1.0f64, 1e-20, 1e300, 0.1, 0.2, 0.3, 3.3, 1e-300, 5e-324, 1.7976931348623157e308, 2.5, -1e-20, 0.0, 7.0]));
+                    }
+                    kid
                 })
                 .collect();
             json!({"t": "flex", "dir": if rng.chance(1, 2) { "h" } else { "v" },
                    "j": *rng.pick(&["start", "center", "end", "between", "around", "evenly"]), "kids": kids})
         }
         4..=6 => {
-            let m: Vec<u64> = (0..4).map(|_| if rng.chance(1, 2) { 0 } else { gen_extent(rng) }).collect();
+            let m: Vec<u64> = if rng.chance(1, 3) {
+                // margins of a few cells on every side: larger than the box for tiny constraints
+                (0..4).map(|_| 1 + rng.below(3)).collect()
+            } else {
+                (0..4).map(|_| if rng.chance(1, 2) { 0 } else { gen_extent(rng) }).collect()
+            };
             json!({"t": "container", "v": gen_node(rng, g, depth - 1), "face": if rng.chance(1, 3) { gen_small_face(rng) } else { json!({"fg": null, "bg": null, "attrs": 0}) },
                    "av": gen_align(rng), "ah": gen_align(rng), "m": m, "size": [gen_extent(rng), gen_extent(rng)]})
         }
@@ -701,7 +743,7 @@ pub fn generate(rng: &mut Rng, n: usize, _tier: &str) -> Vec<Value> {
             .collect();
         let ni = rng.below(3) as usize;
         let image_defs: Vec<Value> = (0..ni).map(|_| json!({"ph": rng.below(3 * PPC_H as u64), "pw": rng.below(4 * PPC_W as u64)})).collect();
-        let mut g = Gen { next_probe: 0, ng, ni, json_ok: true };
+        let mut g = Gen { next_probe: 0, ng, ni, json_ok: true, inexact: rng.chance(1, 6) };
         let depth = match rng.below(10) {
             0 => 0,
             1 => 1,
@@ -711,16 +753,23 @@ pub fn generate(rng: &mut Rng, n: usize, _tier: &str) -> Vec<Value> {
         let _ = g.json_ok;
         // constraint: min <= max, including zero and one-cell extents
         let ext = |rng: &mut Rng| -> u64 {
-            match rng.below(14) {
+            match rng.below(16) {
                 0 => 0,
                 1 | 2 => 1,
                 3 => 2,
+                4 => *rng.pick(&[u64::MAX, u64::MAX - 1, u64::MAX - 2, 1 << 63, (1 << 63) - 1, 1 << 32, 1_000_000]),
                 _ => rng.below(13),
             }
         };
         let (maxh, maxw) = (ext(rng), ext(rng));
-        let minh = if rng.chance(1, 3) { rng.below(maxh + 1) } else { 0 };
-        let minw = if rng.chance(1, 3) { rng.below(maxw + 1) } else { 0 };
+        let min_of = |rng: &mut Rng, mx: u64| -> u64 {
+            match rng.below(9) {
+                0 | 1 => rng.below(mx.min(20) + 1),
+                2 => mx,
+                _ => 0,
+            }
+        };
+        let (minh, minw) = (min_of(rng, maxh), min_of(rng, maxw));
         // canvas and view: room for the root plus what frames / scroll bars add, padded
         let (vh, vw) = (1 + rng.below(12) as usize, 1 + rng.below(14) as usize);
         let pad: Vec<usize> = (0..4).map(|_| rng.below(3) as usize).collect();
